@@ -185,8 +185,8 @@ PROPS = {
     "C03": {
         "lean": ["FH.Props.C03"],
         "engines": ["pe", "asm"],
-        "level_text": "Theorems: an address without a function table entry is a frameless leaf; PE on aarch64 falls back; the cacheable rule OffsetSpAndPopRegisters performs exactly the documented procedure for push/alloc prologs (popSpec over unbounded naturals) and so does the operation interpreter on the same prolog - compression is lossless (the register-order encoding round-trips for every sequence encode accepts, proved from its mixed-radix structure; all 109 601 orderings are also swept on the implementation); exact in the body for the standard prolog with every kind of unwind code (C03_body_unwind_is_the_procedure: for a frame laid out as the Microsoft documentation describes `push...; sub rsp; lea fr,[rsp+fo]; mov [rsp+off], r...`, from any register values in the body - any rsp when a frame register is set - interpreting SAVE_NONVOL / SET_FPREG / ALLOC / PUSH_NONVOL restores the mov-saved registers from their slots, re-establishes rsp and performs the documented pop procedure); interpreted steps are all-or-nothing, advance rsp in caller frames and set ip; framehop's own epilog simulation never panics. Tie: pe engine - ground-truth walks at every instruction boundary of synthesized PE programs, per-step comparison with the Lean model (plan + interpreter incl. pe-unwind-info's resolve_operation) and with pe-unwind-info's reference implementation of the Microsoft unwind procedure on arbitrary registers and stacks.",
+        "level_text": "Theorems: an address without a function table entry is a frameless leaf; PE on aarch64 falls back; the cacheable rule OffsetSpAndPopRegisters performs exactly the documented procedure for push/alloc prologs (popSpec over unbounded naturals) and so does the operation interpreter on the same prolog - compression is lossless (the register-order encoding round-trips for every sequence encode accepts, proved from its mixed-radix structure; all 109 601 orderings are also swept on the implementation); exact in the body for the standard prolog with every kind of unwind code (C03_body_unwind_is_the_procedure: for a frame laid out as the Microsoft documentation describes `push...; sub rsp; lea fr,[rsp+fo]; mov [rsp+off], r...`, from any register values in the body - any rsp when a frame register is set - interpreting SAVE_NONVOL / SET_FPREG / ALLOC / PUSH_NONVOL restores the mov-saved registers from their slots, re-establishes rsp and performs the documented pop procedure); exact at every instruction boundary of the prolog (C03_prolog_offset_selects_executed_codes: on a code array sorted by descending offset the gathered operations are exactly those of the completed instructions; C03_prolog_prefix_unwind_is_the_procedure: any prefix of pushes / allocation / frame-register setup / movs unwinds as laid out); whole walks (C03_walk: over any true chain of PE frames, innermost stopped anywhere in prolog or body, any depth, the walk yields exactly the return addresses and ends with Ok(None) at the root whose return address is null; induction over the chain); interpreted steps are all-or-nothing, advance rsp in caller frames and set ip; framehop's own epilog simulation never panics. Tie: pe engine - ground-truth walks at every instruction boundary of synthesized PE programs, per-step comparison with the Lean model (plan + interpreter incl. pe-unwind-info's resolve_operation) and with pe-unwind-info's reference implementation of the Microsoft unwind procedure on arbitrary registers and stacks.",
         "level_note": _NOTE + " pe-unwind-info's parsers (function table lookup, UNWIND_INFO parsing, unwind code iteration, epilog instruction parsing) are outside the model; the model takes their output, recomputed by the harness with the real parsers. Known finding F8-dep (C09): unchecked arithmetic inside pe-unwind-info's resolve_operation.",
-        "statement": "PE x64: leaf rule without table entry; pop-rule compression lossless; interpreter and rule equal the documented procedure; progress and atomicity of interpreted steps.",
+        "statement": "PE x64: leaf rule without table entry; pop-rule compression lossless; interpreter and rule equal the documented procedure for the standard prolog with every kind of unwind code, at every prolog boundary and in the body; whole walks over true chains; progress and atomicity of interpreted steps.",
     },
 }
